@@ -356,6 +356,97 @@ def lemma_MCS_bridge2():
     )
 
 
+def lemma_XI():
+    """the lemmas of contracts/c_xi.py over Rem / SoftOK / AllMin / Exhaustive, each proved from the
+    definitions it needs only (the lemma under proof is never among the axioms)"""
+    from contracts import c_xi as X
+    from contracts import c_z3backends as Z
+    from pyvc import lib
+    from pyvc.logic import LForm
+
+    D = X.DEFS
+    A, H = z3.Consts("A_xl H_xl", L.WSet)
+    Xf = z3.Const("X_xl", X.Fam)
+    p = z3.Const("p_xl", LCnd.sort)
+    Ss = z3.Const("S_xl", LForm.sort)
+    wm, w = z3.Consts("wm_xl w_xl", L.World)
+    T = z3.Const("T_xl", X.CSet)
+    new = X.ViolC(wm, p)
+    rem = X.Rem(A, H, Xf, p)
+    prem = [rem, X.SoftOK(Ss, p, LCnd.len(p)), LForm.len(Ss) == LCnd.len(p), lib.OptModel(wm, A, Ss)]
+    base = D["ViolC"] + D["sets"]
+    out = []
+    out.append(_prove("XI.new-minimal: realised", [("", prem, X.RealC(H, p, new), [])], extra_axioms=base + D["Realised"] + D["Rem"], fuel=6))
+    out.append(_prove("XI.new-minimal: nothing smaller", [("", prem, X.NoSmC(H, p, new), [])], extra_axioms=base + D["NoSmaller"] + D["Covered"] + D["Rem"] + D["SoftOK"], fuel=10))
+    addX = z3.SetAdd(Xf, T)
+    out.append(_prove("XI.add", [("", [X.AllMin(Xf, H, p), X.RealC(H, p, T), X.NoSmC(H, p, T)], X.AllMin(addX, H, p), [z3.IsMember(X.amw(addX, H, p), Xf)])], extra_axioms=D["AllMin"], fuel=5))
+    out.append(_prove("XI.exit-unsat", [("", [rem, A == L.EMPTY], X.Exh(Xf, H, p), [])], extra_axioms=D["Exh"] + D["Rem"], fuel=5))
+    e = z3.EmptySet(L.Cnd)
+    out.append(_prove("XI.exit-empty", [("", [], X.Exh(z3.SetAdd(Xf, e), H, p), [z3.IsMember(e, z3.SetAdd(Xf, e))])], extra_axioms=D["Exh"] + D["Covered"], fuel=5))
+    e2 = z3.EmptySet(X.CSet)
+    out.append(_prove("XI.start", [("rem", [], X.Rem(H, H, e2, p), []), ("allmin", [], X.AllMin(e2, H, p), [])], extra_axioms=D["Rem"] + D["AllMin"] + D["Covered"], fuel=5))
+    # MAny pointwise: induction on n
+    fl = z3.Const("fl_xl", LForm.sort)
+    n = z3.Int("n_xl")
+    claim = lambda k: z3.Implies(z3.And(0 <= k, k <= LForm.len(fl)), z3.Select(L.MAny(fl, k), w) == X.AnyHolds(fl, w, k))
+    AW = z3.Function("AnyHolds!w", LForm.sort, L.World, L.Int, L.Int)
+    out.append(
+        _prove(
+            "MAny.pointwise",
+            [("base", [n <= 0], claim(n), []), ("step", [n >= 0, claim(n)], claim(n + 1), [LForm.at(fl, n), LForm.at(fl, AW(fl, w, n)), LForm.at(fl, AW(fl, w, n + 1))])],
+            fuel=5,
+        )
+    )
+    # derived axioms used for the blocking step
+    S2 = z3.Const("S2_xl", X.CSet)
+    cadd = X.Covered(z3.SetAdd(Xf, S2), p, w)
+    rhs = z3.Or(X.Covered(Xf, p, w), z3.IsSubset(S2, X.ViolC(w, p)))
+    CW = X.covw
+    out.append(
+        _prove(
+            "CoveredBy.add",
+            [
+                ("=>", [cadd], rhs, [z3.IsMember(CW(z3.SetAdd(Xf, S2), p, w), Xf)]),
+                ("<= old", [X.Covered(Xf, p, w)], cadd, [z3.IsMember(CW(Xf, p, w), z3.SetAdd(Xf, S2))]),
+                ("<= new", [z3.IsSubset(S2, X.ViolC(w, p))], cadd, [z3.IsMember(S2, z3.SetAdd(Xf, S2))]),
+            ],
+            extra_axioms=D["Covered"],
+            fuel=5,
+        )
+    )
+    kk = z3.Int("k_xl")
+    memCn, _mw = L.mem_theory(L.Cnd)
+    out.append(_prove("mem.at.Cnd", [("", [0 <= kk, kk < LCnd.len(p)], memCn(p, LCnd.at(p, kk)), [])], fuel=4))
+    out.append(
+        _prove(
+            "def.ViolC.at",
+            [("", [0 <= kk, kk < LCnd.len(p)], z3.IsMember(LCnd.at(p, kk), X.ViolC(w, p)) == z3.Select(L.fal(LCnd.at(p, kk)), w), [])],
+            extra_axioms=D["ViolC"][:1] + [X.MEM_AT_C],
+            fuel=5,
+        )
+    )
+    # sanity: without the optimum premise the central lemma must NOT be provable
+    neg = _prove("(sanity) XI.new-minimal without OptModel", [("", prem[:3] + [z3.Select(A, wm)], X.NoSmC(H, p, new), [])], extra_axioms=base + D["NoSmaller"] + D["Covered"] + D["Rem"] + D["SoftOK"], fuel=8)
+    out.append({"name": "(sanity) XI.new-minimal needs the optimum premise", "status": "proved" if neg["status"] == "failed" else "failed", "seconds": neg["seconds"]})
+    # bridge: AllMin and Exhaustive give the family of minimal falsification sets
+    MF = Z.MinFam(H, p)
+    d = X.Fdiff(Xf, MF)
+    ext = z3.Implies(Xf != MF, z3.IsMember(d, Xf) != z3.IsMember(d, MF))
+    out.append(
+        _prove(
+            "XI.bridge",
+            [("family", [X.AllMin(Xf, H, p), X.Exh(Xf, H, p), ext], Xf == MF, [])],
+            extra_axioms=D["ViolC"] + D["sets"][:2] + D["Realised"] + D["NoSmaller"] + D["Covered"] + D["AllMin"] + D["Exh"] + D["MinFam"],
+            fuel=8,
+        )
+    )
+    worst = "proved"
+    for r in out:
+        if r["status"] != "proved":
+            worst = r["status"] if worst == "proved" else worst
+    return {"name": "lemmas XI.* (z3 Optimize enumeration)", "status": worst, "parts": [{"part": r["name"], "status": r["status"]} for r in out], "seconds": round(sum(r["seconds"] for r in out), 3)}
+
+
 def lemma_mem_at():
     mem, memw = L.mem_theory(L.Int)
     l = z3.Const("l_mat", LInt.sort)
@@ -373,6 +464,7 @@ LEMMAS = {
     "CoveredUpTo.snoc": lemma_CoveredUpTo_snoc,
     "MCS.bridge": lemma_MCS_bridge,
     "MCS.bridge2": lemma_MCS_bridge2,
+    "XI": lemma_XI,
     "RangeList": lemma_RangeList,
     "L2a": lemma_L2a,
     "lenGLs": lambda: lemma_lenGLs(PS, LCnd, LLCnd, (), ""),
